@@ -82,6 +82,8 @@ func compareGuard(g *core.GuardEval, conds []core.Cond, roles []string, dom []in
 			bad = gv != sv
 		case "implies":
 			bad = gv && !sv
+		case "implied-by":
+			bad = sv && !gv
 		}
 		if bad {
 			ok = false
